@@ -19,7 +19,8 @@ RULE = ("Scenario = 1-3 consecutive sessions of 1-3 batches, a loss script (impr
         "sampler an earlier agent choice in order, exactly one learn per agent-chosen batch with that batch's action and the "
         "independently computed relative-improvement reward, after it ran; queues empty and agent thread finished after each "
         "session; no deadlock; and the (samplers, agent log) signature identical across all schedules of a scenario. "
-        "Non-trivial = >= 2 sessions, or a schedule other than the default one; distinct = scenario + choice vector.")
+        "Failing batches include the bootstrap batch and BaseException-typed faults; some scenarios re-seed the scheduler between two "
+        "sessions. Non-trivial = >= 2 sessions, or a schedule other than the default one; distinct = scenario + choice vector.")
 ASSUMPTIONS = ["interleavings are explored at the synchronisation operations of an instrumented but otherwise real "
                "implementation; pre-emption between bytecodes of un-instrumented code is not explored (the two threads share "
                "state only at the instrumented points)", "'never deadlocks' is checked as a safety property of bounded runs "
